@@ -101,6 +101,10 @@ def answers_equal(expect, got, tol=None):
             return False
         if fx != fx or fy != fy:          # NaN on exactly one side / both: textual only
             return False
+        if fx in (float("inf"), float("-inf")) or fy in (float("inf"), float("-inf")):
+            if fx != fy:                  # an infinity only equals the same infinity
+                return False
+            continue
         if abs(fx - fy) > tol * max(abs(fx), abs(fy)) and abs(fx - fy) > tol * 1e-3:
             return False
     return True
@@ -501,7 +505,11 @@ def run_check(pid, tier, seed, replay=None):
             nontrivial.add(json.dumps(_jsonable(c.desc), sort_keys=True, default=repr))
     samples = [_jsonable(c.desc) for c in cases[n_corpus:n_corpus + 2]] + \
               [_jsonable(c.desc) for c in cases[-1:]]
+    # the evidence schema knows six levels; "full"/"partial" is the strength of the proof claim
     level = getattr(mod, "LEVEL", "proof")
+    strength = getattr(mod, "STRENGTH", None)
+    if level not in ("exploration", "fault_enumeration", "model_checking", "proof", "translation_validation", "other"):
+        strength, level = strength or level, "proof"
     ev = {
         "property_id": pid, "tier": tier, "seed": seed, "level": level,
         "coverage": {
@@ -527,6 +535,7 @@ def run_check(pid, tier, seed, replay=None):
             "failing_input_search_inputs": searched,
             "known_findings_seen": sorted(known_hits),
             "explanation": getattr(mod, "EXPLANATION", ""),
+            "proof_strength": strength or "see MANIFEST level_claimed.text",
         },
         "assumptions": getattr(mod, "ASSUMPTIONS", []),
         "wall_s": round(time.time() - t0, 2),
